@@ -129,4 +129,3 @@ func rcOpen(key []byte, label string, ct []byte) ([]byte, bool) {
 	pt, err := a.Open(nil, rcNonce(label), ct, nil)
 	return pt, err == nil
 }
-
